@@ -53,7 +53,7 @@ package config
 //@      (s == "renamed" && st == discovery.Moved) || (s == "removed" && st == discovery.Removed) || (s == "unmodified" && st == discovery.Noop)
 //@ spec func stateAny(states []string, st discovery.ChangeType) bool = exists i int :: 0 <= i && i < len(states) && stOK(states[i], st)
 
-//@ func stateMatches [C09]
+//@ func stateMatches [C09, C03]
 //@   ensures result == stateAny(states, state)
 //@   loop 1 invariant 0 <= iter && iter <= len(states)
 //@   loop 1 invariant forall i int :: 0 <= i && i < iter ==> !stOK(states[i], state)
@@ -132,11 +132,11 @@ package config
 //@   ensures result ==> ignCalls == len(ignore)
 //@   ensures !result && !ignHit ==> matCalls == len(match)
 
-//@ func defaultMatchStates [C09]
+//@ func defaultMatchStates [C09, C03]
 //@   ensures cmd == CICommand ==> result == CIStates
 //@   ensures cmd != CICommand ==> result == AnyStates
 
-//@ func defaultRuleMatch [C09]
+//@ func defaultRuleMatch [C09, C03]
 //@   ensures len(match) == 0 ==> len(result) == 1 && result[0].State == defaultStates && result[0].Path == "" && result[0].Name == "" &&
 //@              result[0].Kind == "" && result[0].Label == nil && result[0].Annotation == nil && result[0].Command == nil && result[0].For == "" && result[0].KeepFiringFor == ""
 //@   ensures len(match) > 0 ==> len(result) == len(match)
